@@ -14,6 +14,7 @@ import VaxisModel.Props.C01Clip
 import VaxisModel.Lemmas.C12Draw
 import VaxisModel.Lemmas.C12Replies
 import VaxisModel.Lemmas.C12Wire
+import VaxisModel.Lemmas.C12Cluster
 import VaxisModel.Props.C05Draw
 import VaxisModel.Props.C05
 
@@ -705,5 +706,75 @@ theorem emu_real_startup_related (dec : String → G) (hemp : dec "" = []) :
       subst hc
       simp [startupAll, startupQueries, startupGroups, q] at hop) h
     exact ⟨e, rfl, dsim_of_startCheck hemp e 6 20 hi hd hrun⟩
+
+/-! ### Grapheme clustering in the emulator's parser, made explicit
+
+`opsOfToks` hands the emulator one `print` per text write. The real parser re-segments CONSECUTIVE
+text writes together (`Model.C12Compose.clusterToks`, parameters `merges` / `cat`: uniseg is not
+modelled). The composition theorem holds for the clustering wire `opsOfToksM` under the hypothesis
+that no two graphemes of a frame (blank included) merge when one directly follows the other — and
+that hypothesis is necessary (known finding F112d, `clustering_breaks_composition` below, replayed
+on the real code by the scenarios `merge-*`). -/
+
+open VaxisModel.Lemmas.C12Cluster
+
+/-- No two graphemes of the grid (or the blank) form one cluster when written one after the other. -/
+def NoMergeGrid (merges : String → String → Bool) (g : Grid) : Prop :=
+  ∀ a b, (a = "20" ∨ ∃ r ∈ g, ∃ c ∈ r, a = c.g) → (b = "20" ∨ ∃ r ∈ g, ∃ c ∈ r, b = c.g) → merges a b = false
+
+/-- `runFramesC` with the parser's clustering of consecutive text. -/
+def runFramesM (merges : String → String → Bool) (cat : String → String → String) (dec : String → G) (cw : String → Nat) :
+    HState → Emu → List FrameIn → M Emu
+  | _, e, [] => .ok e
+  | s, e, fi :: rest => do
+    let e' ← runOps e (opsOfToksM merges cat dec cw (renderFrameC cw (mkFrame emuCaps s fi)).2)
+    runFramesM merges cat dec cw (C01Clip.stepHC cw emuCaps s fi) e' rest
+
+theorem frame_noMerge (merges : String → String → Bool) (cw : String → Nat) (s : HState) (fi : FrameIn)
+    (h : NoMergeGrid merges fi.next) : NoMerge merges (renderFrameC cw (mkFrame emuCaps s fi)).2 := by
+  have hS : ∀ k ∈ (renderFrameC cw (mkFrame emuCaps s fi)).2,
+      TextIn (fun g => g = "20" ∨ ∃ r ∈ fi.next, ∃ c ∈ r, g = c.g) k := by
+    rw [Lemmas.RenderClip.renderFrameC_eq]
+    apply frame_textIn _ (Or.inl rfl)
+    intro r hr c hc
+    obtain ⟨l, hl, rfl⟩ := List.mem_map.mp hr
+    obtain ⟨c0, h0, hc0⟩ := Lemmas.RenderClip.clipRow_mem cw l c hc
+    rcases hc0 with h1 | h1
+    · exact Or.inr ⟨l, hl, c0, h0, by rw [h1]⟩
+    · exact Or.inl (by rw [h1])
+  intro a b ha hb
+  exact h a b (hS _ ha) (hS _ hb)
+
+theorem runFramesM_eq (merges : String → String → Bool) (cat : String → String → String) (dec : String → G) (cw : String → Nat) :
+    ∀ (fis : List FrameIn) (s : HState) (e : Emu), (∀ fi ∈ fis, NoMergeGrid merges fi.next) →
+      runFramesM merges cat dec cw s e fis = runFramesC dec cw s e fis := by
+  intro fis
+  induction fis with
+  | nil => intro s e _; rfl
+  | cons a rest ih =>
+    intro s e h
+    simp only [runFramesM, runFramesC]
+    rw [opsOfToksM_eq merges cat dec cw _ (frame_noMerge merges cw s a (h a (by simp)))]
+    cases hr : runOps e (opsOfToks dec cw (renderFrameC cw (mkFrame emuCaps s a)).2) with
+    | error p => rfl
+    | ok e1 =>
+      simp only [bind, Except.bind]
+      exact ih _ e1 (fun fi hfi => h fi (by simp [hfi]))
+
+/-- **C12, composition theorem with the parser's grapheme clustering**: as
+    `emu_shows_application_now`, the emulator model being fed what its parser delivers when it
+    re-segments consecutive text writes (`opsOfToksM`), for every history in which no two graphemes of
+    a frame merge (`NoMergeGrid`, for whatever `merges` / `cat` the parser implements). -/
+theorem emu_shows_application_clustered (merges : String → String → Bool) (cat : String → String → String)
+    (dec : String → G) (cw : String → Nat) (hsp : cw "20" = 1) (hd : dec "20" = [32])
+    (hemp : dec "" = []) (rows cols : Nat) (e0 : Emu) (h0 : DSim dec (startDisplay cols rows) e0 rows cols)
+    (fi0 : FrameIn) (fis : List FrameIn) (hr0 : fi0.refresh = true)
+    (hok : ∀ fi ∈ fi0 :: fis, C01Clip.FrameInOkC cw emuCaps rows cols fi ∧ EmuFrameOk dec cw fi ∧ NoMergeGrid merges fi.next)
+    (fi : FrameIn) (hlast : (fi0 :: fis).getLast? = some fi) :
+    ∃ e', runFramesM merges cat dec cw (startState cols rows) e0 (fi0 :: fis) = .ok e' ∧ ShowsC dec cw fi e' ∧
+      Lemmas.Emu.EmuInv e' rows cols := by
+  rw [runFramesM_eq merges cat dec cw _ _ _ (fun fi h => (hok fi h).2.2)]
+  exact emu_shows_application_now dec cw hsp hd hemp rows cols e0 h0 fi0 fis hr0
+    (fun fi h => ⟨(hok fi h).1, (hok fi h).2.1⟩) fi hlast
 
 end VaxisModel.Props.C12
